@@ -241,3 +241,42 @@ PROPS["C08"] = dict(
                   "contract of square_root_mod_prime (C15); jacobi's Legendre clause assumed", "byte-string axioms; canonical polynomial form of x mod p arguments (sympy)"],
     explanation="Public_key.__init__, point_is_valid, from_public_point and from_string (with the raw / uncompressed / hybrid / compressed decoders inlined) are executed from the real AST: a key is returned only for one of the four exact encodings with coordinates in range, on the curve and in the subgroup, it denotes the encoded point, and MalformedPointError is raised only when the specification rejects; DER/PEM containers are C09/C10",
 )
+
+
+def _c10_b(tier, seed):
+    from contracts.keys_ser import c10_bounded
+    return c10_bounded(tier, seed)
+
+
+_K = "ecdsa.keys."
+_LOADERS = [_K + "VerifyingKey.from_string", _K + "VerifyingKey.from_der", _K + "VerifyingKey.from_pem", _K + "SigningKey.from_string", _K + "SigningKey.from_der",
+            _K + "SigningKey.from_pem", _K + "VerifyingKey.from_public_point", _K + "SigningKey.from_secret_exponent"]
+PROPS["C10"] = dict(
+    level="other",
+    functions=_LOADERS + ["ecdsa.util.sigdecode_string", "ecdsa.util.sigdecode_strings", "ecdsa.util.sigdecode_der", _K + "VerifyingKey.verify_digest",
+                          "ecdsa.der.read_length", "ecdsa.der.remove_integer", "ecdsa.der.remove_sequence", "ecdsa.der.remove_octet_string", "ecdsa.der.remove_constructed",
+                          "ecdsa.der.remove_bitstring", "ecdsa.ecdsa.Public_key.__init__",
+                          "ecdsa.ecdh.ECDH.load_private_key_bytes", "ecdsa.ecdh.ECDH.load_private_key_der", "ecdsa.ecdh.ECDH.load_private_key_pem",
+                          "ecdsa.ecdh.ECDH.load_received_public_key_bytes", "ecdsa.ecdh.ECDH.load_received_public_key_der", "ecdsa.ecdh.ECDH.load_received_public_key_pem"],
+    lemmas=[],
+    bounded=[dict(function=_K + "VerifyingKey.from_der", label="key loaders over mutated encodings", role="concretiser / CPython cross-check of the exception sets",
+                  bound="3 curves (quick) / 17 (thorough) x 6 loader entry points x valid encodings x truncations, byte substitutions, insertions, deletions (sampled in quick); PEM text mutations", run=_c10_b, budget_s={"quick": 30, "thorough": 600})],
+    min_obligations=30,
+    trusted_base=["remove_object (OID reader) is applied by an ASSUMED contract (loops over lists; bounded stand-in in C11)", "find_curve: the curve of the table with that OID or UnknownCurveError (finite table)",
+                  "der.unpem is executed from source with exception-level models of split/strip/startswith/join/base64 (only b64decode can raise)",
+                  "RuntimeError('No b found') in the p = 1 (mod 8) square-root branch needs a quadratic non-residue below p: assumed"],
+    explanation="exceptional postconditions collected per decoder entry point: every path of every loader / signature decoder / verification entry point raises only the documented classes; every while loop on these call graphs has a decreases clause or is bounded by the input length",
+)
+PROPS["C09"] = dict(
+    level="other",
+    functions=[_K + "VerifyingKey.to_string", _K + "VerifyingKey.to_der", _K + "SigningKey.to_string", _K + "SigningKey.to_der", _K + "VerifyingKey.from_string",
+               _K + "VerifyingKey.from_der", _K + "SigningKey.from_string", _K + "SigningKey.from_der", _K + "SigningKey.from_secret_exponent",
+               "ecdsa.util.number_to_string", "ecdsa.util.string_to_number", "ecdsa.util.orderlen",
+               "ecdsa.der.encode_sequence", "ecdsa.der.encode_integer", "ecdsa.der.encode_octet_string", "ecdsa.der.encode_constructed", "ecdsa.der.encode_bitstring", "ecdsa.der.encode_length"],
+    lemmas=["C09.public_key_string_roundtrip"],
+    bounded=[],
+    min_obligations=30,
+    trusted_base=["coordinate world (see C08)", "X.690 / RFC 5480 / RFC 5915 / RFC 5958 spec encoders of spec/der.py and contracts/keys_ser.py", "OID codec: assumed contract + closed-term check of the table",
+                  "PEM armour (topem/unpem): bounded stand-in"],
+    explanation="to_string / to_der of both key classes equal the specification encoders for every curve record and every point encoding; from_string(to_string(k)) gives back the same point (lemma); loaders accept only canonical structures",
+)
